@@ -40,7 +40,7 @@ pub enum TimeoutCase {
     /// document limit: None = default (900 s), Some(0) = unlimited
     Virtual { total: Option<u64>, steps: Vec<Step> },
     /// real-time replay through the binary; limits in milliseconds; `slow` = index of the slow test (sleep 30) if any
-    Real { tests: usize, slow: Option<usize>, per_test_ms: Option<u64>, total_ms: Option<u64>, via_flag: bool, cram: bool, #[serde(default)] wait_ms: Option<u64>, #[serde(default)] stubborn: bool },
+    Real { tests: usize, slow: Option<usize>, per_test_ms: Option<u64>, total_ms: Option<u64>, via_flag: bool, cram: bool, #[serde(default)] wait_ms: Option<u64>, #[serde(default)] stubborn: bool, #[serde(default)] closes_streams: bool },
 }
 
 thread_local! {
@@ -189,15 +189,17 @@ impl Engine for VcTimeout {
                             if slow.is_none() && (tests != 2) {
                                 continue;
                             }
-                            real.push(TimeoutCase::Real { tests, slow, per_test_ms, total_ms, via_flag, cram, wait_ms: None, stubborn: false });
+                            real.push(TimeoutCase::Real { tests, slow, per_test_ms, total_ms, via_flag, cram, wait_ms: None, stubborn: false, closes_streams: false });
                             // the same with a shell that ignores SIGTERM: the limit still has to end it
                             if slow.is_some() {
-                                real.push(TimeoutCase::Real { tests, slow, per_test_ms, total_ms, via_flag, cram, wait_ms: None, stubborn: true });
+                                real.push(TimeoutCase::Real { tests, slow, per_test_ms, total_ms, via_flag, cram, wait_ms: None, stubborn: true, closes_streams: false });
+                                // .. and with a command that closes its stdout and stderr before it goes on running
+                                real.push(TimeoutCase::Real { tests, slow, per_test_ms, total_ms, via_flag, cram, wait_ms: None, stubborn: false, closes_streams: true });
                             }
                             // the document limit elapses while the slow test case is still waiting (`wait` longer than the limit):
                             // the command then starts with no time left and has to time out at once
                             if !cram && slow.is_some() && total_ms.is_some() && per_test_ms != Some(400) {
-                                real.push(TimeoutCase::Real { tests, slow, per_test_ms, total_ms, via_flag, cram, wait_ms: Some(2000), stubborn: false });
+                                real.push(TimeoutCase::Real { tests, slow, per_test_ms, total_ms, via_flag, cram, wait_ms: Some(2000), stubborn: false, closes_streams: false });
                             }
                         }
                     }
@@ -216,7 +218,7 @@ impl Engine for VcTimeout {
     }
     fn bound(&self, tier: Tier) -> String {
         format!(
-            "(a) virtual clock: every document of 1..3 test cases over duration {{1,5}} x per-test timeout {{absent,2,8}}{} x document limit {{absent->900,0=unlimited,3,7,12}} through the real StatefulExecutor::execute_all with a fake Runner honouring the timeout it is handed; (b) real time: {} replays through `scrut test -r json` (fast = true, slow = sleep 30 - also from a shell that ignores SIGTERM/SIGINT/SIGHUP -, per-test limit 400 ms / 3 s, document limit 1 s by front-matter or --timeout-seconds, Markdown and Cram, slow test in every position)",
+            "(a) virtual clock: every document of 1..3 test cases over duration {{1,5}} x per-test timeout {{absent,2,8}}{} x document limit {{absent->900,0=unlimited,3,7,12}} through the real StatefulExecutor::execute_all with a fake Runner honouring the timeout it is handed; (b) real time: {} replays through `scrut test -r json` (fast = true, slow = sleep 30 - also from a shell that ignores SIGTERM/SIGINT/SIGHUP and after closing stdout and stderr -, per-test limit 400 ms / 3 s, document limit 1 s by front-matter or --timeout-seconds, Markdown and Cram, slow test in every position)",
             if tier == Tier::Quick { " (and wait {absent,2} on documents of 1..2 test cases)" } else { " x wait {absent,2}" },
             if tier == Tier::Quick { "the 2-test" } else { "all 1..3-test" }
         )
@@ -340,7 +342,7 @@ impl Engine for VcTimeout {
                     }
                 }
             }
-            TimeoutCase::Real { tests, slow, per_test_ms, total_ms, via_flag, cram, wait_ms, stubborn } => {
+            TimeoutCase::Real { tests, slow, per_test_ms, total_ms, via_flag, cram, wait_ms, stubborn, closes_streams } => {
                 res.nontrivial.push(("C14", key));
                 res.counters.push(("real_time_replays", 1));
                 let sb = Sandbox::new();
@@ -352,6 +354,7 @@ impl Engine for VcTimeout {
                 for i in 0..*tests {
                     let is_slow = *slow == Some(i);
                     let cmd = match (is_slow, *stubborn) {
+                        (true, false) if *closes_streams => "echo $$ >> \"$VERIF_PIDFILE\"; exec >&- 2>&-; sleep 30 & echo $! >> \"$VERIF_PIDFILE\"; wait",
                         (true, false) => "echo $$ >> \"$VERIF_PIDFILE\"; sleep 30 & echo $! >> \"$VERIF_PIDFILE\"; wait",
                         (true, true) => "trap '' TERM INT HUP; echo $$ >> \"$VERIF_PIDFILE\"; sleep 30 & echo $! >> \"$VERIF_PIDFILE\"; wait",
                         _ => "true",
@@ -392,7 +395,7 @@ impl Engine for VcTimeout {
                         }
                     }
                 });
-                let describe = || format!("{} document with {tests} test(s), slow test{} at {slow:?} (wait before it: {wait_ms:?} ms), per-test limit {per_test_ms:?} ms, document limit {total_ms:?} ms ({})", if *cram { "cram" } else { "markdown" }, if *stubborn { " (its shell ignores SIGTERM/SIGINT/SIGHUP)" } else { "" }, if *via_flag { "--timeout-seconds" } else { "front-matter" });
+                let describe = || format!("{} document with {tests} test(s), slow test{} at {slow:?} (wait before it: {wait_ms:?} ms), per-test limit {per_test_ms:?} ms, document limit {total_ms:?} ms ({})", if *cram { "cram" } else { "markdown" }, if *stubborn { " (its shell ignores SIGTERM/SIGINT/SIGHUP)" } else if *closes_streams { " (closes stdout and stderr first)" } else { "" }, if *via_flag { "--timeout-seconds" } else { "front-matter" });
                 // expected: which limit applies to the slow test
                 let limit_ms: Option<u64> = match (slow, per_test_ms, total_ms) {
                     (None, _, _) => None,
@@ -466,7 +469,7 @@ impl Engine for VcTimeout {
     fn size(&self, case: &TimeoutCase) -> usize {
         match case {
             TimeoutCase::Virtual { total, steps } => steps.len() * 100 + steps.iter().map(|s| s.d as usize + s.timeout.unwrap_or(0) as usize + s.wait.unwrap_or(0) as usize * 3).sum::<usize>() + total.unwrap_or(0) as usize,
-            TimeoutCase::Real { tests, wait_ms, stubborn, .. } => 10_000 + tests + wait_ms.is_some() as usize * 10 + *stubborn as usize * 5,
+            TimeoutCase::Real { tests, wait_ms, stubborn, closes_streams, .. } => 10_000 + tests + wait_ms.is_some() as usize * 10 + *stubborn as usize * 5 + *closes_streams as usize * 6,
         }
     }
 }
